@@ -171,6 +171,13 @@ def crash_site(err_bytes, exe):
     if frames:
         mine = [(int(i), int(off, 16)) for i, mod, off in frames if os.path.basename(mod) == os.path.basename(exe)]
         names = symbolize(exe, [o for i, o in mine[:24]])
+        if 'stack-overflow' in err:
+            # unbounded recursion: which function of the cycle touches the guard page first depends on where the stack
+            # started (environment size, ASLR), so the site is the alphabetically first function of the cycle instead
+            cyc = sorted(set(short_fn(fn) for (fn, where) in names
+                             if ('/src/abg-' in where or '/include/abg-' in where or '/tools/' in where) and not fn.startswith('__')))
+            if cyc:
+                return cyc[0], what or 'stack'
         for (i, o), (fn, where) in zip(mine, names):
             if '/verif/sim/' in where or fn.startswith('__') or 'sanitizer' in fn or fn in ('main', '??', 'run_child'):
                 continue
